@@ -21,8 +21,17 @@ Tv(b) == IF b THEN "T" ELSE "F"
 Route(c, r, z) ==
   IF r = "NA" THEN {} ELSE IF r = z THEN {} ELSE {1}
 
+(* atoms over numerals beyond TLC's 32-bit integers (c.nomodel): the specification cannot compute a  *)
+(* verdict; ISLa is compared with Z3 only, which is what the property asks                            *)
+JudgeNoModel(c) ==
+  IF c.z \notin {"T", "F"} THEN <<"UNJUDGED", "z3 undecided">>
+  ELSE LET bad == (IF c.i1 \notin {"NA", c.z} THEN {"is_valid"} ELSE {})
+                   \cup (IF c.i2 \notin {"NA", c.z} THEN {"auto_eval"} ELSE {})
+                   \cup (IF c.i3 \notin {"NA", c.z} THEN {"evaluate"} ELSE {})
+       IN IF bad = {} THEN <<"OK", c.z>> ELSE <<"MISMATCH", bad>>
 Judge(c) ==
-  IF Undefined(c.term, Env0) THEN <<"UNJUDGED", "division by zero">>
+  IF c.nomodel THEN JudgeNoModel(c)
+  ELSE IF Undefined(c.term, Env0) THEN <<"UNJUDGED", "division by zero">>
   ELSE IF c.z \notin {"T", "F"} THEN <<"UNJUDGED", "z3 undecided">>
   ELSE LET s == Tv(Holds(c.term, Env0)) IN
        IF s # c.z THEN <<"MODEL", s>>
